@@ -2262,6 +2262,9 @@ class TensorDict(TensorDictBase):
                 auto_batch_size = True
             if auto_batch_size:
                 _set_max_batch_size(out, batch_dims)
+                if names is not None:
+                    # the names could not be set while the batch size was still empty
+                    out.names = names
         else:
             out.batch_size = batch_size
         return out
@@ -2370,6 +2373,9 @@ class TensorDict(TensorDictBase):
                 auto_batch_size = True
             if auto_batch_size:
                 _set_max_batch_size(out, batch_dims)
+                if names is not None:
+                    # the names could not be set while the batch size was still empty
+                    out.names = names
         else:
             out.batch_size = batch_size
         return out
